@@ -1550,8 +1550,10 @@ pub fn prehistory<K: KeyT, V: ValT, const N: usize>(m: &mut Map<K, V, N>, nk: u8
         m.insert(K::mk(k, 0), V::mk(0));
     }
     for round in 0..2 {
-        // ascending, then descending, so that the last lookup lands on the first and on the last slot
-        let keys: Vec<u8> = if round == 0 { (0..fill).collect() } else { (0..fill).rev().collect() };
+        // descending, then ascending: the final touch of every kind lands on the LAST slot - the one
+        // that is dead in every state reached afterwards with fewer than `fill` entries - after the
+        // first slot had been the latest one for a while
+        let keys: Vec<u8> = if round == 1 { (0..fill).collect() } else { (0..fill).rev().collect() };
         for k in keys {
             K::with_q(k, |q| {
                 let _ = m.get(q);
@@ -1562,6 +1564,17 @@ pub fn prehistory<K: KeyT, V: ValT, const N: usize>(m: &mut Map<K, V, N>, nk: u8
             let e = m.entry(K::mk(k, 0));
             let _ = e.key();
             drop(e);
+            // every writing operation, as an update of the present key (contents stay the same)
+            let _ = m.insert(K::mk(k, 0), V::mk(0));
+            // SAFETY: the key is present, which is insert_unchecked's precondition
+            let _ = unsafe { m.insert_unchecked(K::mk(k, 0), V::mk(0)) };
+            let _ = m.insert_key_value(K::mk(k, 0), V::mk(0));
+            let _ = m.checked_insert(K::mk(k, 0), V::mk(0));
+            let _ = m.entry(K::mk(k, 0)).and_modify(|_| {}).or_insert_with(|| V::mk(0));
+            if let Entry::Occupied(mut e) = m.entry(K::mk(k, 0)) {
+                let _ = e.get_mut();
+                let _ = e.insert(V::mk(0));
+            }
         }
     }
     match mode {
@@ -1891,6 +1904,14 @@ impl<K: KeyT, V: ValT, const N: usize> MapSys<K, V, N> {
         if K::LEDGER || V::LEDGER {
             flush_ledger(cx, pm, "dropping the container");
             check_live(cx, pm, Vec::new(), &leaked, "after dropping the container");
+        }
+        if let Some([made, cloned, gone]) = V::counters() {
+            // counted zero-sized values: everything made or cloned is destroyed exactly once
+            // (a forgotten drain - in the pre-history or as an operation, recognised by the keys it leaked - is the sanctioned leak)
+            let may_leak = PREHIST.load(std::sync::atomic::Ordering::Relaxed) == 2 || !leaked.is_empty() || !K::LEDGER;
+            cx.check(pm | C02, gone == made + cloned || (may_leak && gone < made + cloned), || {
+                format!("zero-sized values with a destructor: {made} created and {cloned} cloned, but {gone} destroyed after the container is gone")
+            });
         }
     }
 }
